@@ -1,3 +1,4 @@
+import DcmVerif.Props.Source_cli
 import DcmVerif.Proofs.Cli
 /-! Property theorems for C19. Statements only; proofs are by reference to `Proofs/`. -/
 set_option autoImplicit false
